@@ -121,6 +121,13 @@ func (r *runner) runCorpus(dir string) {
 				}
 				touched[a] = true
 				touched[tokenContract] = true
+			case "ft": // ft A name amount : AddFT of a non-bound token (stored in A's own storage)
+				open()
+				a := corpusAddr(f[1])
+				v, _ := new(big.Int).SetString(f[3], 10)
+				adb.AddFT(a, f[2], v)
+				w.noteKey(a, []byte(common.GenerateFTKey(f[2])))
+				touched[a] = true
 			case "suicide":
 				open()
 				a := corpusAddr(f[1])
@@ -140,6 +147,8 @@ func (r *runner) runCorpus(dir string) {
 						p.die = true
 					case o == "retry":
 						p.retry = true
+					case o == "noread":
+						p.skipRead = true
 					}
 				}
 				w.commitPrepared(adb, touched, p)
